@@ -126,9 +126,23 @@ func check(c Case) (msg, key string) {
 	for _, n := range names {
 		args = append(args, sp(filepath.Join(dir, n)))
 	}
+	if c.State == "create-obstructed" {
+		// a directory sits where the first recovery file has to be written: create must not report success
+		ob := "set.vol00+01.par2"
+		if c.Format == "par1" {
+			ob = "set.p01"
+		}
+		os.MkdirAll(filepath.Join(dir, ob), 0o755)
+	}
 	r := par(cwd, args...)
 	if panicked(r) {
 		return "par create panicked: " + tail(r.out), ""
+	}
+	if c.State == "create-obstructed" {
+		if r.code == 0 || r.code == 3 {
+			return fmt.Sprintf("create exited %d although a recovery file could not be written: %s", r.code, tail(r.out)), ""
+		}
+		return "", ""
 	}
 	if c.State == "unknown-ext" {
 		if r.code == 0 || r.code == 3 {
@@ -194,6 +208,10 @@ func check(c Case) (msg, key string) {
 	case "relocation": // PAR2 only: every slice still findable, file wrong
 		d := append([]byte{0x7e}, state[names[0]]...)
 		state[names[0]] = d
+		expectV, expectR = 1, 0
+	case "length-only": // every slice intact and in place, only the length is wrong (bytes appended after a whole number of slices)
+		n := names[len(names)-1]
+		state[n] = append(append([]byte{}, state[n]...), 0x11, 0x22, 0x33)
 		expectV, expectR = 1, 0
 	case "swap":
 		state[names[0]], state[names[1]] = state[names[1]], state[names[0]]
@@ -300,8 +318,8 @@ func check(c Case) (msg, key string) {
 	return "", ""
 }
 
-var states2 = []string{"intact", "repairable", "repairable-flip", "relocation", "swap", "unrepairable", "noparity-damaged", "noparity-intact", "damaged-index", "missing-index", "unknown-ext"}
-var states1 = []string{"intact", "repairable", "repairable-flip", "unrepairable", "noparity-damaged", "noparity-intact", "damaged-index", "missing-index", "unknown-ext"}
+var states2 = []string{"intact", "repairable", "repairable-flip", "relocation", "length-only", "create-obstructed", "swap", "unrepairable", "noparity-damaged", "noparity-intact", "damaged-index", "missing-index", "unknown-ext"}
+var states1 = []string{"intact", "repairable", "repairable-flip", "create-obstructed", "unrepairable", "noparity-damaged", "noparity-intact", "damaged-index", "missing-index", "unknown-ext"}
 
 var usages = [][]string{{}, {"frobnicate"}, {"frobnicate", "set.par2"}, {"v"}, {"verify"}, {"r"}, {"c"}, {"c", "set.par2"}, {"create", "set.par"}, {"-bogus", "v", "set.par2"},
 	{"-g", "abc", "v", "set.par2"}, {"c", "-s", "xyz", "set.par2", "a"}, {"c", "-c", "1.5", "set.par2", "a"}, {"v", "-bogus", "set.par2"}, {"r", "-bogus", "set.par"}, {"-g"}, {"c", "-s"}}
@@ -394,6 +412,12 @@ func TestCheck(t *testing.T) {
 			}
 			// enough blocks to repair the first file / the last file's single slice
 			c.N = (c.Files[0].Size+c.Slice-1)/c.Slice + rapid.IntRange(0, 2).Draw(rt, "extra")
+			if c.State == "length-only" {
+				c.Files[len(c.Files)-1].Size = c.Slice * rapid.IntRange(1, 3).Draw(rt, "whole")
+			}
+			if c.N < 2 {
+				c.N = 2
+			}
 		} else {
 			c.State = rapid.SampledFrom(states1).Draw(rt, "state")
 			nf := rapid.IntRange(2, 4).Draw(rt, "nf")
